@@ -1,8 +1,9 @@
 #!/bin/bash
 # usage: try_seeded.sh <ID>-<v> [prop] : runs the quick check of the property (default: the change's own) against the stored change, seeds 1..3
 M=$1; P=${2:-${M%%-*}}
+V=$(cd "$(dirname "$0")/.." && pwd)
 for s in 1 2 3; do
-  r=$(VERIF_SEED=$s /verif/tools/with_patch.sh /verif/seeded/$M/patch.diff /verif/check $P quick 2>&1 | grep -E "^(OK|VIOLATION|INCONCLUSIVE|\[inconclusive)" | head -1 | cut -c1-120)
+  r=$(VERIF_SEED=$s $V/tools/with_patch.sh $V/seeded/$M/patch.diff $V/check $P quick 2>&1 | grep -E "^(OK|VIOLATION|INCONCLUSIVE|\[inconclusive)" | head -1 | cut -c1-120)
   case "$r" in VIOLATION*) echo "$M on $P: killed (seed $s)"; exit 0;; OK*) ;; *) echo "$M on $P: $r"; exit 2;; esac
 done
 echo "$M on $P: SURVIVED"
